@@ -82,6 +82,7 @@ def run_demo(src_dir, agent_wt):
     shutil.copytree(src_dir, work)
     run = open(os.path.join(work, 'RUN.txt')).read().strip().splitlines()
     lines = [re.sub(r'^\s*(ROOT|WT)=<[^>]*>\s*;\s*', '', l.strip()) for l in run if l.strip() and not l.strip().startswith('#')]
+    lines = [re.sub(r';\s*echo\s+"?exit=\$\?"?', '', re.sub(r'\s{2,}#.*$', '', l)) for l in lines]   # the exit status itself is what is judged
     cmd = ' && '.join(lines)
     cmd = cmd.replace(agent_wt, WT)
     cmd = re.sub(r'<[A-Za-z_ -]*(?:repo|root|worktree|wt|checkout)[A-Za-z_ -]*>', WT, cmd, flags=re.I)
